@@ -359,9 +359,10 @@ namespace lab
         std::vector<Entry> r;
         r.push_back(E<og::RRT>("RRT", F_PAIRS | F_APPROX));
         r.push_back(E<og::RRTConnect>("RRTConnect", F_PAIRS | F_BIDIR | F_APPROX | F_DIRAWARE));
-        r.push_back(E<og::RRTstar>("RRTstar", F_OPT | F_PAIRS | F_APPROX));
-        r.push_back(E<og::InformedRRTstar>("InformedRRTstar", F_OPT | F_PAIRS | F_APPROX));
-        r.push_back(E<og::SORRTstar>("SORRTstar", F_OPT | F_PAIRS | F_APPROX));
+        // RRTstar::setup(): "requires a state space with symmetric distance and symmetric interpolation"
+        r.push_back(E<og::RRTstar>("RRTstar", F_OPT | F_PAIRS | F_APPROX | F_SYMM));
+        r.push_back(E<og::InformedRRTstar>("InformedRRTstar", F_OPT | F_PAIRS | F_APPROX | F_SYMM));
+        r.push_back(E<og::SORRTstar>("SORRTstar", F_OPT | F_PAIRS | F_APPROX | F_SYMM));
         r.push_back(E<og::RRTsharp>("RRTsharp", F_OPT | F_PAIRS | F_APPROX | F_SYMM));   // "requires symmetric distance and interpolation"
         r.push_back(E<og::RRTXstatic>("RRTXstatic", F_OPT | F_PAIRS | F_APPROX | F_SYMM));
         r.push_back(E<og::LBTRRT>("LBTRRT", F_OPT | F_PAIRS | F_APPROX | F_SINGLESTART));
@@ -396,7 +397,7 @@ namespace lab
         r.push_back(E<og::EIRMstar>("EIRMstar", F_OPT | F_BIDIR | F_APPROX | F_SYMM));
         r.push_back(E<og::RLRT>("RLRT", F_APPROX));
         r.push_back(E<og::BiRLRT>("BiRLRT", F_BIDIR));
-        r.push_back(E<og::CForest>("CForest", F_MT | F_OPT | F_APPROX));
+        r.push_back(E<og::CForest>("CForest", F_MT | F_OPT | F_APPROX | F_SYMM));  // a forest of RRT* instances
         r.push_back(E<og::AnytimePathShortening>("AnytimePathShortening", F_MT | F_OPT | F_APPROX));
         r.push_back(EM<ompl::multilevel::QRRT>("QRRT", F_APPROX));
         r.push_back(EM<ompl::multilevel::QRRTStar>("QRRTStar", F_APPROX));
